@@ -13,7 +13,7 @@ const std::string& ManagedText::Str() const noexcept { return std::empty(cache) 
 const std::string& ManagedText::Raw() const noexcept { return rawText; }
 
 void ManagedText::InitFrom(std::string_view ref, const EntityTermContext& cntxt) {
-  rawText = ref;
+  SetRaw(ref); // Note: the resolution of the previous text is dropped even if resolving is skipped
   UpdateFrom(cntxt);
 }
 
